@@ -82,6 +82,17 @@ def run(pid, tier, seed, replay):
     def failing(scn):
         scn["failAt"] = sorted(rng.sample(range(1, 25), rng.randint(1, 2)))
     ec.nonrtc_leg(chk, rng, 250 if quick else 4000, shards=2 if quick else 8, tweak=failing)
+    # the failure path with a second sender around (threads, every line boundary of the dispatch code, <= 2 preemptions):
+    # what the failing call drops stays dropped, what the other sender was promised is still done, nothing is left
+    # wedged or stranded (validated against Dispatch.tla like C06's executions)
+    from concurrent.futures import ProcessPoolExecutor
+    from checks import c06
+    with ProcessPoolExecutor(max_workers=14) as pool:
+        runs = []
+        for plan in ({"fail": ["1:1"]}, {"fail": ["2:1"]}, {"fail": ["1:1"], "nested": ["1:1"]}):
+            runs += c06.explore_threads(pool, 2, 1, plan, 2, 300 if quick else 6000, rng, hot_cap=1200 if quick else None)
+        chk.cov_add("failure_schedules_with_second_sender", len(runs))
+        c06.validate(chk, runs, 2, 1, "threads", "failure with a concurrent sender", shards=4 if quick else 12)
     chk.coverage["rule"] = ("every callback invocation position of a fault-free run is a crash point (quick: up to 12 sampled per "
                             "base scenario); the failing run continues with the remaining sends; base scenarios mix nested sends, "
                             "validators, machine/model/listener callbacks, both engines, rtc on/off")
